@@ -75,6 +75,15 @@ def build_tree(w, sc):
         base = 'work/proj'
         root = base
         inside_dir(base, 'p')
+    elif layout == 'proj-qmark':
+        # a project directory with the load path's placeholder character (a
+        # glob character too) in its name; siblings named as a substitution
+        # of it would give
+        base = 'work/proj?'
+        root = base
+        inside_dir(base, 'q')
+        for nm in ('canary', 'init', 'x', 'ok', 'sub', 'lib1'):
+            canary_dir('work/proj' + nm)
     elif layout in CARTS_DIRS:
         root = CARTS_DIRS[layout]
         base = root + '/game'
@@ -100,6 +109,11 @@ def build_tree(w, sc):
         inside_dir(base, 'o')
     else:
         raise core.HarnessError(layout)
+    # a directory inside the base that is a symbolic link to a directory
+    # elsewhere: `shared/..` is the base lexically, elsewhere/abs physically
+    w.put('elsewhere/abs/linked/ok.lua', b'inside_linked_ok=1\n')
+    if not os.path.lexists(w.p(base + '/shared')):
+        os.symlink(w.p('elsewhere/abs/linked'), w.p(base + '/shared'))
     # canaries everywhere outside the root
     parent = os.path.dirname(root)
     canary_dir(parent)
@@ -179,7 +193,8 @@ def require_roots(file_abs, lua_path):
 # ---------------------------------------------------------------------------
 # C12 generation
 
-INC_COMPONENTS = ['ok', 'sub', 'deep', 'canary', 'init', 'x', '.', '..', '..',
+INC_COMPONENTS = ['shared', 'linked',
+                  'ok', 'sub', 'deep', 'canary', 'init', 'x', '.', '..', '..',
                   '..', '', 'cousin', 'game', 'carts', 'carts-old', 'cartsx',
                   'proj', 'projx', 'proj-old', 'home', 'elsewhere', 'abs',
                   'libs', 'libsx', 'work', 'okcart', '~', '~', '~root', 'PROJ',
@@ -198,9 +213,12 @@ def _perturb(rng, path):
     elif r < 0.4:
         i = rng.randrange(len(parts) + 1)
         parts[i:i] = ['']
-    elif r < 0.5:
+    elif r < 0.47:
         i = rng.randrange(len(parts) + 1)
         parts[i:i] = ['nothere', '..']
+    elif r < 0.5:
+        i = rng.randrange(len(parts))
+        parts[i:i] = ['shared', '..']       # through the symbolic link
     elif r < 0.55:
         parts = ['.'] + parts
     elif r < 0.6 and len(parts) > 1:
@@ -212,8 +230,8 @@ def gen_c12(rng, tier, index):
     mode = rng.choice(['include', 'include', 'require', 'require'])
     layout = rng.choice(['proj', 'proj', 'carts-linux', 'carts-mac',
                          'carts-win', 'carts-old', 'tilde-dir',
-                         'cwd-carts']) \
-        if mode == 'include' else 'proj'
+                         'cwd-carts', 'proj-qmark']) \
+        if mode == 'include' else rng.choice(['proj'] * 5 + ['proj-qmark'])
     sc = {'engine': NAME, 'mode': mode, 'layout': layout,
           'cwd': rng.choice(['root', 'base', 'parent']),
           'argstyle': rng.choice(['abs', 'rel']),
@@ -337,7 +355,9 @@ def _derive_S(sc, w, info):
         tgt = targets[sc['aim_index'] % len(targets)]
     else:
         ins = [base + '/ok.lua', base + '/sub/ok2.lua',
-               info['root'] + '/ok.lua', base + '/okcart.p8']
+               info['root'] + '/ok.lua', base + '/okcart.p8',
+               base + '/canary.lua', base + '/init.lua',
+               base + '/shared/ok.lua']
         tgt = ins[sc['aim_index'] % len(ins)]
     if sc['style'] == 'abs':
         s = '$ROOT/' + tgt
@@ -539,8 +559,11 @@ def execute(sc):
                     os.chdir(w.p(cousin))
                     pfile.from_file('cart.p8')
                 else:
+                    # (one package found next to the program, one through
+                    # a load-path entry that names a directory)
                     w.put(cousin + '/main.lua',
-                          b'warm_marker=1\nrequire("init")\n')
+                          b'warm_marker=1\nrequire("init")\n'
+                          b'require("lib1")\nrequire("pkg")\n')
                     os.chdir(w.p(cousin))
                     tool.main(['build', w.p('out/warm.p8'), '--lua',
                                'main.lua', '--lua-path',
@@ -629,6 +652,41 @@ def execute(sc):
                             permitted.append(r)
                 continue
             outside.append((rel, mode))
+        if outside:
+            # a file may be opened under another name than the one that was
+            # checked (its resolved path, say): what counts is which file it
+            # is.  Files reachable inside the permitted roots, following
+            # links, are collected by identity.
+            ids = set()
+            for r in permitted:
+                seen_dirs = set()
+                for dp, dns, fns in os.walk(r, followlinks=True):
+                    try:
+                        st = os.stat(dp)
+                    except OSError:
+                        continue
+                    if (st.st_dev, st.st_ino) in seen_dirs:
+                        dns[:] = []
+                        continue
+                    seen_dirs.add((st.st_dev, st.st_ino))
+                    for fn in fns:
+                        try:
+                            st = os.stat(os.path.join(dp, fn))
+                            ids.add((st.st_dev, st.st_ino))
+                        except OSError:
+                            pass
+            still = []
+            for rel, mode in outside:
+                try:
+                    st = os.stat(w.p(rel[len('$ROOT'):].lstrip('/')))
+                    if (st.st_dev, st.st_ino) in ids and 'r' in mode:
+                        core.bump(res['probes'],
+                                  'inside-file-opened-under-another-name')
+                        continue
+                except OSError:
+                    pass
+                still.append((rel, mode))
+            outside = still
         # a canary that the user's own load path makes reachable (e.g. an
         # entry `../?.lua`) is not a leak
         leaked = sorted(m for rel, m in info['canaries'].items()
@@ -739,13 +797,32 @@ def gen_c20(rng, tier, index):
             # extension, or in a directory component
             name = {'lua': rng.choice(['%sx%d.p8.lua', '%sa%d.p8.png.lua',
                                        '%smods%d.lua.d/inc.lua',
-                                       '%sv1.2/inc%d.lua']),
+                                       '%sv1.2/inc%d.lua',
+                                       '%srows[%d].lua', '%sgame[v%d]/inc.lua',
+                                       '%sall*%d.lua', '%swhat?%d.lua']),
                     'p8': rng.choice(['%stools%d.lua.p8', '%slib%d.p8.p8',
-                                      '%sc%d.lua.d/cart.p8']),
+                                      '%sc%d.lua.d/cart.p8',
+                                      '%sset[%d].p8']),
                     'png': rng.choice(['%st%d.lua.p8.png',
-                                       '%su%d.p8.d/c.p8.png'])}[kind] % (d, t)
+                                       '%su%d.p8.d/c.p8.png',
+                                       '%spics[%d].p8.png'])}[kind] % (d, t)
         tg = {'kind': kind, 'rel': name}
-        if kind == 'lua':
+        if kind == 'lua' and rng.random() < 0.12:
+            # a file that only makes sense in its context: it opens something
+            # that the including cart closes on the line after the include
+            style = rng.choice(['function', 'comment', 'table', 'longstring'])
+            uid[0] += 1
+            opener = {'function': 'function frag_%d()',
+                      'comment': '--[[ opened in the file %d',
+                      'table': 'frag_%d={',
+                      'longstring': 'frag_%d=[[ text'}[style] % uid[0]
+            body = {'function': ['fr_%d=%d'], 'comment': ['not lexable ` %d %d'],
+                    'table': [' %d, %d,'], 'longstring': [' more %d %d']}[style]
+            tg['lines'] = [opener] + [body[0] % (uid[0], uid[0])]
+            tg['final_newline'] = True
+            tg['fragment'] = {'function': 'end', 'comment': ']]',
+                              'table': '}', 'longstring': ']]'}[style]
+        elif kind == 'lua':
             tg['lines'] = mk_lines('t%d' % t, rng.choice([0, 1, 2, 3]))
             tg['final_newline'] = rng.random() < 0.7
             if rng.random() < 0.2:
@@ -799,10 +876,15 @@ def gen_c20(rng, tier, index):
                'gap': rng.choice([' ', ' ', '  ', '\t']),
                'dot': rng.random() < 0.15}
         pos = rng.choice([0, len(lines), rng.randint(0, len(lines))])
+        if tg.get('fragment'):
+            uid[0] += 1
+            inc = {'t': 'seq', 'inner': [inc, {
+                't': 'code', 'text': tg['fragment'] + ' -- closes %d' % uid[0]
+                if tg['fragment'] != ']]' else ']]'}]}
         lines.insert(pos, inc)
     sc = {'engine': NAME, 'mode': 'splice', 'targets': targets,
           'lines': lines,
-          'cwd': rng.choice(['root', 'base', 'parent']),
+          'cwd': rng.choice(['root', 'base', 'parent'] * 4 + ['deleted']),
           'argstyle': rng.choice(['abs', 'rel']),
           'route': rng.choice(['from_file', 'from_file', 'listlua',
                                'build-out', 'listlua-2files']),
@@ -833,7 +915,7 @@ def gen_c20(rng, tier, index):
         t2 = []
         for t, tg in enumerate(targets):
             n = dict(tg)
-            if tg['kind'] == 'self':
+            if tg['kind'] == 'self' or tg.get('fragment'):
                 pass
             elif tg['kind'] == 'lua':
                 n['lines'] = mk_lines('u%d' % t, rng.choice([0, 1, 2, 3]))
@@ -854,7 +936,9 @@ def gen_c20(rng, tier, index):
             t3 = []
             for tg in targets:
                 n = dict(tg)
-                if tg['kind'] == 'lua':
+                if tg.get('fragment'):
+                    pass
+                elif tg['kind'] == 'lua':
                     n['lines'] = [('#' + x[1:]) if x.startswith('#')
                                   else 'v' + x[1:] for x in tg['lines']]
                 elif tg['kind'] != 'self':
@@ -870,7 +954,7 @@ def gen_c20(rng, tier, index):
                     ln['tab'] = rng.choice([None, 0, 1, 2])
             sc['second']['lines'] = l2
     if len(lines) >= 1 and rng.random() < 0.15 and not any(
-            tg['kind'] == 'self' for tg in targets):
+            tg['kind'] == 'self' or tg.get('fragment') for tg in targets):
         # a stretch of the cart's lines (include lines too) sits inside a
         # block comment: the splice is textual, the lines arrive all the same
         i = rng.randint(0, len(lines) - 1)
@@ -894,7 +978,9 @@ def _flat_lines(lines):
     """Block-comment brackets written out as the two code lines they are."""
     out = []
     for ln in lines:
-        if ln['t'] == 'cblock':
+        if ln['t'] == 'seq':
+            out.extend(_flat_lines(ln['inner']))
+        elif ln['t'] == 'cblock':
             out.append({'t': 'code', 'text': '--[%s[ commented out %d' % (
                 ln.get('level', ''), ln['id'])})
             out.extend(_flat_lines(ln['inner']))
@@ -1118,6 +1204,18 @@ def _splice_round(w, sc, res, rno):
                 cart = refcodec.make_cart(version=tg.get('version', 33),
                                           code=code)
                 data = refcodec.encode_any(rel, cart)
+            if any(c in tg['rel'] for c in '[*?'):
+                # files that the name would match if it were taken for a
+                # shell pattern
+                import re as _re
+                alt = _re.sub(r'\[(.)[^\]]*\]', r'\1', tg['rel']).replace(
+                    '*', 'x').replace('?', 'y')
+                if alt != tg['rel']:
+                    arel = base + '/' + alt
+                    w.put(arel, b'pattern_decoy=1\n' if tg['kind'] == 'lua'
+                          else refcodec.encode_any(arel, refcodec.make_cart(
+                              code=b'pattern_decoy=1\n')))
+                    never_open.append(arel)
             if sc.get('enoent') != ti:
                 if rno and sc.get('keep_times'):
                     if w.put_keep_times(rel, data):
@@ -1144,12 +1242,21 @@ def _splice_round(w, sc, res, rno):
         code = ('\n'.join(text_lines) + '\n').encode() if text_lines else b''
         cart_rel = base + '/cart.p8'
         w.put(cart_rel, _p8_with_code(code))
-        cwd_rel = {'root': '', 'base': base,
-                   'parent': os.path.dirname(base)}[sc['cwd']]
-        os.chdir(w.p(cwd_rel))
         main_abs = w.p(cart_rel)
-        arg = main_abs if sc['argstyle'] == 'abs' else os.path.relpath(
-            main_abs, w.p(cwd_rel))
+        if sc['cwd'] == 'deleted':
+            # the working directory has been removed under the process;
+            # every file is named absolutely
+            w.mkdir('work/gone')
+            os.chdir(w.p('work/gone'))
+            os.rmdir(w.p('work/gone'))
+            arg = main_abs
+            core.bump(res['probes'], 'working-directory-deleted')
+        else:
+            cwd_rel = {'root': '', 'base': base,
+                       'parent': os.path.dirname(base)}[sc['cwd']]
+            os.chdir(w.p(cwd_rel))
+            arg = main_abs if sc['argstyle'] == 'abs' else os.path.relpath(
+                main_abs, w.p(cwd_rel))
         exc = None
         rc = None
         got = None
@@ -1361,7 +1468,7 @@ def shrink(sc):
                         yield dict(sc, lines=lines[:i] + [dict(ln, **{k: v})]
                                    + lines[i + 1:])
         for ti, tg in enumerate(sc['targets']):
-            if tg.get('lines'):
+            if tg.get('lines') and not tg.get('fragment'):
                 for c in core.ddmin_list(tg['lines']):
                     yield dict(sc, targets=sc['targets'][:ti] + [
                         dict(tg, lines=c)] + sc['targets'][ti + 1:])
